@@ -36,6 +36,9 @@ def gen_decode(rng):
     meta = {"decode_of": [f, v]}
     if k == 0:
         meta = {"text": rng.pick(["{", "a: [", "x = ", "{} {}", "1\n---\n2\n", "a = 1\n---\nb = 2\n", ""])}
+        if rng.chance(1, 2):
+            # empty and comment-only texts, per format: TOML denotes {}, YAML an empty document
+            meta = {"text": rng.pick(["", "\n", "# only a comment\n", "  \n"]), "fmt": rng.pick(["toml", "yaml", "json", "yml"])}
     c.append(meta)
     return c
 
@@ -62,7 +65,9 @@ def enc_completion(ctx, cases):
                 text = res[1] if res and res[0] == "ok" else "unencodable"
             else:
                 f, text = "json", m.get("text", "")
-                if "=" in text:
+                if "fmt" in m:
+                    f = m["fmt"]
+                elif "=" in text:
                     f = "toml"
                 elif ":" in text or "---" in text:
                     f = "yaml"
